@@ -109,6 +109,15 @@ Proof.
   split; [exact Hs|]. split; [eapply doc_lt_sorted_nodup; exact Hs | eapply result_nodes_good; eauto].
 Qed.
 
+(** what the evaluator does to a list of rows -- de-duplicate by ORDER KEY, sort by ORDER KEY
+    ([union_finish]) -- is on the edited document what XPath asks: the node-set by TREE POSITION *)
+Theorem edited_sort_by_key_is_by_position :
+  doc_element s <> None ->
+  forall l : list node, Forall (good doc) l -> map Row (union_finish doc l) = nodeset doc (map Row l).
+Proof.
+  intros He l Hl. destruct (bridge_reachable He) as [Hinv _]. apply (canon_agrees doc Hinv l Hl).
+Qed.
+
 Corollary edited_query_canonical :
   doc_element s <> None ->
   forall (c : ctx) (e : expr) (l : list node) (c' : ctx),
